@@ -15,7 +15,6 @@ import (
 
 	"github.com/Ptt-official-app/go-pttbbs/bbs"
 	"github.com/Ptt-official-app/go-pttbbs/cache"
-	"github.com/Ptt-official-app/go-pttbbs/types"
 	"verifharness/internal/hx"
 )
 
@@ -52,6 +51,19 @@ var C = defaultCfg
 
 func (c siteCfg) bits() string {
 	return b2s(c.haveAnon) + b2s(c.freeTn) + b2s(c.useEntropy) + b2s(c.queryURL) + b2s(c.aidURL)
+}
+
+// the zone the site is configured for, as named by the last `timezone` op line and loaded HERE with
+// time.LoadLocation (the oracle never asks types.TIMEZONE what time it is)
+var zoneName = "Asia/Taipei"
+var zoneLoc = mustZone(zoneName)
+
+func mustZone(n string) *time.Location {
+	l, err := time.LoadLocation(n)
+	if err != nil {
+		panic(err)
+	}
+	return l
 }
 
 // aidcOf: the 8-character article id of a name M.<t>.A.<XXX> (pttbbs fn2aidu + aidu2aidc), computed here from scratch.
@@ -151,7 +163,7 @@ func padTo(b []byte, n int) []byte {
 }
 
 func cdatemd(t int64) string {
-	s := time.Unix(t, 0).In(types.TIMEZONE).Format("1/02")
+	s := time.Unix(t, 0).In(zoneLoc).Format("1/02")
 	if len(s) == 4 {
 		s = " " + s
 	}
@@ -366,7 +378,7 @@ func judgePost(i int, q0 *request, o *observed, name string) string {
 	ct := []byte("????????????????????????")
 	if p := ctimeOffset(file); p >= 0 {
 		ct = file[p : p+24]
-		if tt, err := time.ParseInLocation("Mon Jan _2 15:04:05 2006", string(ct), types.TIMEZONE); err != nil || tt.Unix() < o.t0-1 || tt.Unix() > o.t1+1 {
+		if tt, err := time.ParseInLocation("Mon Jan _2 15:04:05 2006", string(ct), zoneLoc); err != nil || tt.Unix() < o.t0-1 || tt.Unix() > o.t1+1 {
 			fail("content:header", fmt.Sprintf("time line %q is not the time of the call", ct))
 		}
 	}
